@@ -132,6 +132,7 @@ type syncInput struct {
 	ForcedDsts []string `json:"forcedDsts"`  // fetch with explicit per-branch refspecs: destinations whose refspec carries '+'
 	ShallowClone bool   `json:"shallowClone"`
 	MainOnly bool       `json:"mainOnly"`
+	RefsLost bool       `json:"refsLost"` // the remote-tracking ref of main was deleted locally (an earlier fetch died after its last object write, before its ref write)
 	StreamResets int    `json:"streamResets"` // fetch / pull: the first k packfile responses are cut half way with an HTTP/2 stream error
 	ExpTag bool         `json:"expTag"` // the remote has a tag on the second branch, outside the fetched refspecs
 	DevRelation string  `json:"devRelation"` // "", equal, ahead, unrelated, rewound: second branch `dev` on the remote
@@ -314,7 +315,13 @@ func runSyncCase(seed int64, thorough bool) (*syncInput, Res) {
 		in.Action = []string{"fetch", "fetch", "push", "push", "pull", "merge"}[r.Intn(6)]
 		in.Relation = []string{"remote-ahead", "local-ahead", "diverged", "equal", "unrelated"}[r.Intn(5)]
 		revertFirst := false
-		if in.ShallowClone && r.Intn(2) == 0 {
+		refsLost := false
+		if in.Action == "fetch" && !in.ShallowClone && r.Intn(4) == 0 {
+			// nothing (or nothing new) to transfer: the remote did not move, moved backwards, or only the
+			// local side moved; in half of these the remote-tracking ref has been lost (see below)
+			in.Relation = []string{"equal", "rewound", "local-ahead"}[r.Intn(3)]
+			refsLost = r.Intn(2) == 0
+		} else if in.ShallowClone && r.Intn(2) == 0 {
 			// a shallow clone fetching new history whose tip re-uses the table of a commit that is
 			// shallow locally (a revert): the sender must not take that table for present
 			in.Action = []string{"fetch", "pull"}[r.Intn(2)]
@@ -442,6 +449,17 @@ func runSyncCase(seed int64, thorough bool) (*syncInput, Res) {
 		}
 		if in.FFMode != "" {
 			args = append(args, "--"+in.FFMode)
+		}
+		if refsLost {
+			// every object is (or may be) already here but the remote-tracking ref is not: the state a fetch
+			// killed between its last object write and its ref write leaves behind; the fetch must write the ref
+			if rd, err := local.NewRepoDir(dir, ""); err == nil {
+				lrs := rd.OpenRefStore()
+				if err := lrs.Delete("remotes/origin/main"); err == nil {
+					in.RefsLost = true
+				}
+				rd.Close()
+			}
 		}
 		var errObs error
 		in.LocalBefore, errObs = observeDir(n, dir)
